@@ -557,28 +557,23 @@ def bit_chars(rep, mod, fname, nbits, rule='R-DPRINT'):
 
 def byte_lanes(rep, mod, fname, callee, nbytes, rule='R-DPRINT'):
     """debug_print{hex,bin}_uintN: the k-th call of the byte printer receives byte lane N-1-k of the parameter
-    (most significant byte first on the little-endian target)"""
+    (most significant byte first on the little-endian target).  Decided on the bit-lane evaluation of c18_lanes (every value
+    a tuple of bit symbols of the parameter): byte pointer into the parameter, shifts and masks, or a counted loop all give
+    the same lanes."""
+    import c18_lanes
     f = need(mod, fname)
     calls = [c for c in f.calls() if c.callee == callee]
     rep.inst(rule, fname, 'emits-%d-bytes' % nbytes, len(calls) == nbytes and len(f.calls()) == nbytes, where(f),
              '%d calls of %s' % (len(calls), callee))
-    slot = None
-    for i in f.all_insts():
-        if i.op == 'store' and i.ops[0].k == 'arg' and i.ops[0].argno == 0:
-            r, off = trace_const(f, i.ops[1])
-            if r.k == 'inst' and f.insts[r.id].op == 'alloca' and off == 0:
-                slot = r.id
+    ev = c18_lanes.LaneEval(f, hex_arg=None, in_arg=0)
     for k, c in enumerate(calls[:nbytes]):
-        a = c.ops[0]
-        li = f.insts[a.id] if a.k == 'inst' else None
-        lane = None
-        if li is not None and li.op == 'load' and li.bits == 8:
-            r, off = trace_const(f, li.ops[0])
-            if r.k == 'inst' and r.id == slot:
-                lane = off
-        ok = lane == nbytes - 1 - k
+        bits = ev.bits_of(c.ops[0], 8)[:8]
+        want = c18_lanes.lane_bits(nbytes - 1 - k)
+        if c18_lanes.TOP in bits:
+            raise AnalysisBroken('%s: the byte handed to call %d of %s is outside the bit-lane domain' % (fname, k, callee))
+        ok = tuple(bits) == want
         rep.inst(rule, fname, 'byte %d printed is lane %d' % (k, nbytes - 1 - k), ok, c.where(),
-                 'call %d prints byte lane %s of the parameter' % (k, lane))
+                 None if ok else 'call %d prints %s of the parameter' % (k, c18_lanes.describe(tuple(bits), nbytes)))
 
 
 def dprint_hex_n(rep, mod):
@@ -772,8 +767,11 @@ def run(rep, repo, tier):
         except AnalysisBroken as e:
             rep.defer_broken(e)
     for n, nm in ((2, '16'), (4, '32'), (8, '64')):
-        byte_lanes(rep, modd, 'debug_printhex_uint' + nm, 'debug_printhex_uint8', n)
-        byte_lanes(rep, modd, 'debug_printbin_uint' + nm, 'debug_printbin_uint8', n)
+        for pre_, cal_ in (('debug_printhex_uint', 'debug_printhex_uint8'), ('debug_printbin_uint', 'debug_printbin_uint8')):
+            try:
+                byte_lanes(rep, moddu, pre_ + nm, cal_, n)
+            except AnalysisBroken as e:
+                rep.defer_broken(e)
     dprint_hex_n(rep, modd)
     for nm in ('signed_char', 'signed_short', 'signed_int', 'signed_long'):
         forward_rule(rep, 'R-WRAPPER', need(modd, 'debug_printdec_' + nm), 'debug_printdec_' + nm,
